@@ -341,7 +341,7 @@ Section Dyn16.
     destruct (eff c (g_th c) =? 0) eqn:Ee; [discriminate|].
     rewrite (lookup_mget k cs m Hwf Hm Hs). rewrite (count_len hidx cs m Hwf Hm Hs).
     rewrite (total_perm c _ m (same_perm _ m (walk_nodup hidx cs Hwf) Hm Hs)).
-    cbn [fl_spec f_gate f_prefix]. unfold stored_nlen. cbn [fl_spec f_prefix]. rewrite Z.add_0_r.
+    cbn [fl_spec f_gate f_prefix f_addname]. unfold stored_nlen. cbn [fl_spec f_prefix]. rewrite Z.add_0_r.
     assert (Hlen' : Z.of_nat (llen m') = Z.of_nat (llen m) + match nv with Some _ => 1 | None => 0 end
                                           - match mget k m with Some _ => 1 | None => 0 end).
     { subst m'. destruct nv as [v|].
@@ -580,7 +580,7 @@ Section Dyn16.
           destruct (eff c (g_th c) =? 0) eqn:Ee; [discriminate|].
           rewrite (lookup_mget k cs m Hwf Hm Hs), Ew in Hdec. rewrite (count_len hidx cs m Hwf Hm Hs) in Hdec.
           rewrite (total_perm c _ m (same_perm _ m (walk_nodup hidx cs Hwf) Hm Hs)) in Hdec.
-          cbn [fl_spec f_gate] in Hdec. rewrite !Z.add_0_r, !Z.sub_0_r in Hdec.
+          cbn [fl_spec f_gate f_addname] in Hdec. rewrite !Z.add_0_r, !Z.sub_0_r in Hdec.
           destruct (g_mode c =? 2) eqn:Em; cbn [negb andb orb] in *.
           -- apply andb_true_iff in Hdec. destruct Hdec as [Hdec H3]. apply andb_true_iff in Hdec. destruct Hdec as [H1 H2].
              apply andb_true_iff in Hr. destruct Hr as [_ R2]. apply Z.ltb_lt in R2. apply Z.leb_le in H3. lia.
@@ -706,21 +706,29 @@ Definition w3_ops := [AAdd (rep 6 "a") v34; AAdd (rep 6 "b") v34; AAdd (rep 10 "
 Definition w4_ops := [AAdd (rep 6 "a") v34; AAdd (rep 6 "b") v34; AAdd (rep 6 "c") v34; AAdd (rep 6 "d") v34;
                       AAdd (rep 96 "x") v34; ARemove (rep 6 "a"); ARemove (rep 6 "b"); ARemove (rep 6 "c")].
 
+(** C16-5: a HAMT of 164 bytes (threshold 120); replacing the 84-byte entry by itself is taken for
+    a shrink by its 50 name bytes: converted to a BasicDirectory of 164 bytes *)
+Definition w5_ops := [AAdd (rep 6 "a") v34; AAdd (rep 6 "b") v34; AAdd (rep 50 "x") v34; AAdd (rep 50 "x") v34].
+Lemma addname_refuted :
+  model_meets (mkflags16 false false false false true) (cfgL 120) whidx w5_ops = false /\
+  model_meets fl_spec (cfgL 120) whidx w5_ops = true.
+Proof. vm_compute. split; reflexivity. Qed.
+
 Lemma prefix_refuted :
-  model_meets (mkflags16 true false false false) (cfgL 229) whidx w1_ops = false /\
+  model_meets (mkflags16 true false false false false) (cfgL 229) whidx w1_ops = false /\
   model_meets fl_spec (cfgL 229) whidx w1_ops = true.
 Proof. vm_compute. split; reflexivity. Qed.
 Lemma thresh_refuted :
-  model_meets (mkflags16 false true false false) (cfgL 112) whidx w2_ops = false /\
+  model_meets (mkflags16 false true false false false) (cfgL 112) whidx w2_ops = false /\
   model_meets fl_spec (cfgL 112) whidx w2_ops = true.
 Proof. vm_compute. split; reflexivity. Qed.
 Lemma gate_refuted :
-  model_meets (mkflags16 false false true false) (cfgL 100) whidx w3_ops = false /\
+  model_meets (mkflags16 false false true false false) (cfgL 100) whidx w3_ops = false /\
   model_meets fl_spec (cfgL 100) whidx w3_ops = true.
 Proof. vm_compute. split; reflexivity. Qed.
 Lemma units_refuted :
-  model_meets (mkflags16 false false true true) (cfgB 196) whidx w4_ops = false /\
-  model_meets (mkflags16 false false true false) (cfgB 196) whidx w4_ops = true /\
+  model_meets (mkflags16 false false true true false) (cfgB 196) whidx w4_ops = false /\
+  model_meets (mkflags16 false false true false false) (cfgB 196) whidx w4_ops = true /\
   model_meets fl_spec (cfgB 196) whidx w4_ops = true.
 Proof. vm_compute. repeat split; reflexivity. Qed.
 
